@@ -15,43 +15,66 @@ import random
 import numpy as np
 
 from sim import calsim
-from sim.compsim import gen_losses, grid_index, grid_points, make_space, pin_third_party, quiet
+from sim.compsim import gen_losses, grid_points, make_space, pin_third_party, quiet
 from sim.core import Check, Result, jdigest
 from sim.peers import StubSurrogate
 from sim.props.c03 import gen_compsim, run_compsim, shrink_compsim
 from sim.seams import Seams
 
 
+def _snap_set(x, g):
+    """nearest grid element(s) of x (both neighbours on an exact tie)"""
+    d = np.abs(g - x)
+    return set(g[d <= d.min() + 1e-12 * max(1.0, abs(x))].tolist())
+
+
 def check_best_batch(space, sampler, pts, losses, out, res: Result):
+    """every proposal = one of the batch_size lowest-loss history points, displaced by 1..range-1 precision steps on at
+    least one coordinate, then confined to the space (clipped and/or snapped: either counts).  Parents may lie off the grid
+    or outside the space (a calibration continued on narrower bounds)."""
     if type(sampler).__name__ != "BestBatchSampler":
         return
     B = sampler.batch_size  # noqa: N806
     R = sampler.perturbation_range  # noqa: N806
-    order = np.sort(losses)
-    thr = order[B - 1]
+    thr = np.sort(losses)[B - 1]
     parents = pts[losses <= thr]          # ties at the threshold are all admissible parents
-    pidx = grid_index(space, parents)
-    oidx = grid_index(space, out)
-    top = np.array([len(g) - 1 for g in space.param_grid])
+    lo, hi = np.asarray(space.parameters_bounds[0], float), np.asarray(space.parameters_bounds[1], float)
+    prec = np.asarray(space.parameters_precision, float)
+    grids = space.param_grid
+    cache = {}
+
+    def cands(pi, j):
+        key = (pi, j)
+        if key not in cache:
+            p = parents[pi, j]
+            unshocked = _snap_set(min(max(p, lo[j]), hi[j]), grids[j])
+            shocked = set()
+            for m in range(1, R):
+                for sgn in (-1, 1):
+                    shocked |= _snap_set(min(max(p + prec[j] * sgn * m, lo[j]), hi[j]), grids[j])
+            cache[key] = (unshocked, shocked)
+        return cache[key]
     for r in range(len(out)):
         ok = False
-        reason = "no admissible parent"
-        for h in pidx:
-            diff = oidx[r] - h
-            if (np.abs(diff) > R - 1).any():
-                continue
-            if (diff != 0).any():
+        for pi in range(len(parents)):
+            some_shock = False
+            good = True
+            for j in range(space.dims):
+                un, sh = cands(pi, j)
+                v = float(out[r, j])
+                if v in sh:
+                    some_shock = True
+                elif v not in un:
+                    good = False
+                    break
+            if good and some_shock:
                 ok = True
                 break
-            # an all-zero displacement is possible only if a shock was absorbed by the boundary
-            if ((h == 0) | (h == top)).any():
-                ok = True
-                break
-            reason = "identical to a parent that is not on the boundary (zero shock)"
         if not ok:
             res.add("best-batch-descent", "parent-or-shock",
-                    f"proposal {out[r].tolist()} (grid index {oidx[r].tolist()}): {reason}; the {B} lowest-loss points have grid "
-                    f"indices {pidx.tolist()[:8]}, perturbation_range={R}")
+                    f"proposal {out[r].tolist()} cannot be obtained from any of the {B} lowest-loss history points "
+                    f"{parents.tolist()[:6]} by displacing at least one coordinate by 1..{R - 1} precision steps {prec.tolist()} and "
+                    f"confining it to bounds {lo.tolist()}..{hi.tolist()}")
             return
     res.stats["best-batch-proposals-checked"] += len(out)
 
@@ -164,6 +187,8 @@ class C16(Check):
         if u < 0.7:
             scn = gen_compsim(rng, kinds=["bestbatch"])
             scn["loss_mode"] = rng.choice(["ties", "ties", "plain", "huge", "inf"])
+            if rng.random() < 0.35:
+                scn["offspace"] = rng.randrange(1, 2 ** 31)      # some of the best history points lie outside the space / off the grid
             return scn
         scn = gen_compsim(rng)
         kind = scn["sampler"]["cls"]
